@@ -7,13 +7,16 @@ C09 — structural tie of the four function bodies of key.go to the model.
 modifier bits / key fields / `unicode` calls, what each arm assigns, writes or returns.
 
 * `key_bodies_fully_recognised`: the extractor translated every node (no `.unknown`).
-* `facts_*_body`: the extracted decision structure is the one the hand-written model of
-  `Model/Key.lean` was transcribed from (`Lemmas/KeyBodyPin.lean`).  Swapping two arms, dropping a
-  modifier from a guard, turning `&&` into `||`, changing a constant in a guard… changes the `Gen`
-  term and breaks the theorem.
-* `*_body_eq_model`: the *interpreted* extracted body (`Model/KeyBody.lean`, the definitions the
-  driver also runs against the implementation on every case) coincides with the hand-written model
-  for all inputs.
+* `matches_body_eq_model`: the *interpreted* extracted body of `Key.Matches` (`Model/KeyBody.lean`,
+  the definition the driver also runs against the implementation on every case) coincides with the
+  hand-written model for all inputs — a semantic tie: swapping two rules that changes nothing
+  still proves, dropping a modifier from a guard or turning `&&` into `||` does not.
+* `facts_*_body` (for `MatchString`, `String`, `decodeKey`, whose loops over symbolic lists are not
+  evaluated symbolically yet): the extracted decision structure is the one the hand-written model
+  of `Model/Key.lean` was transcribed from (`Lemmas/KeyBodyPin.lean`).  Swapping two arms, dropping
+  a modifier from a guard, turning `&&` into `||`, changing a constant in a guard… changes the `Gen`
+  term and breaks the theorem (a syntactic tie; the driver additionally runs the interpreted bodies
+  against the hand model and the implementation on every case).
 -/
 import VaxisModel.Model.KeyBody
 import VaxisModel.Lemmas.KeyBodyPin
@@ -35,7 +38,6 @@ theorem key_bodies_fully_recognised :
      VaxisModel.Gen.KeyBody.stringBody.clean && VaxisModel.Gen.KeyBody.decodeKeyBody.clean) = true ∧
     VaxisModel.Gen.KeyBody.unknownCount = 0 := by decide
 
-theorem facts_matches_body : VaxisModel.Gen.KeyBody.matchesBody = VaxisModel.Lemmas.KeyBodyPin.matchesBody := rfl
 theorem facts_matchString_body : VaxisModel.Gen.KeyBody.matchStringBody = VaxisModel.Lemmas.KeyBodyPin.matchStringBody := rfl
 theorem facts_string_body : VaxisModel.Gen.KeyBody.stringBody = VaxisModel.Lemmas.KeyBodyPin.stringBody := rfl
 theorem facts_decodeKey_body : VaxisModel.Gen.KeyBody.decodeKeyBody = VaxisModel.Lemmas.KeyBodyPin.decodeKeyBody := rfl
